@@ -15,9 +15,29 @@ pub fn refuse_allocations_from(bytes: u64) {
     REFUSE_FROM.store(bytes, Ordering::SeqCst);
 }
 
+/// Ceiling on the live heap of the whole monitor process (0 = none). A judged operation that drives the process beyond it is a
+/// runaway (e.g. a traversal of malformed output that never ends and keeps growing its key buffer): it is reported as a violation
+/// by `ctx::report_runaway` before the machine's OOM killer turns the run into an inconclusive one. The ceiling is far above what
+/// any workload of the tier legitimately needs (see MAX_LIVE in the evidence).
+static CEILING: AtomicU64 = AtomicU64::new(0);
+pub static MAX_LIVE: AtomicU64 = AtomicU64::new(0);
+static REPORTING: AtomicBool = AtomicBool::new(false);
+
+pub fn set_ceiling(bytes: u64) {
+    CEILING.store(bytes, Ordering::SeqCst);
+}
+
 #[inline]
 fn add(n: u64) {
     let live = LIVE.fetch_add(n, Ordering::Relaxed) + n;
+    if live > MAX_LIVE.load(Ordering::Relaxed) {
+        MAX_LIVE.fetch_max(live, Ordering::Relaxed);
+        let c = CEILING.load(Ordering::Relaxed);
+        if c != 0 && live > c && !REPORTING.swap(true, Ordering::SeqCst) {
+            CEILING.store(0, Ordering::SeqCst);
+            crate::ctx::report_runaway(live, n);
+        }
+    }
     if ON.load(Ordering::Relaxed) {
         ALLOCS.fetch_add(1, Ordering::Relaxed);
         PEAK.fetch_max(live, Ordering::Relaxed);
